@@ -65,8 +65,9 @@ let pub_model (w : buf list) =
       | true, _ -> "T=bad" in
     Printf.sprintf " [ %d : %s%s ]" (List.length d) (cells_str d) t) w)
 
+(* live= : the number of blocks obtained from new[] and not released = the variables that own storage *)
 let int_model (w : buf list) =
-  "R=ok" ^ String.concat "" (List.map (fun b ->
+  Printf.sprintf "R=ok live=%d" (List.length (List.filter owns w)) ^ String.concat "" (List.map (fun b ->
     let at = match b.wb with
       | BOwn -> Printf.sprintf "own:%d" (int_of_nat b.start)
       | BReg r -> Printf.sprintf "reg:%d/%d" (int_of_nat b.start) (List.length r)
